@@ -46,6 +46,7 @@ def host(model):
     new = {'Signals': make_enum('Signals', model['signals']), 'AddressFamily': make_enum('AddressFamily', model['af']),
            'SocketKind': make_enum('SocketKind', model['sock'])}
     patched = []
+    injected = []
     mods = [m for n, m in list(sys.modules.items()) if m is not None and (n in ('signal', 'socket') or n.startswith('pykdebugparser'))]
     saved_consts = {}
     try:
@@ -67,6 +68,13 @@ def host(model):
         saved_strerror = _os.strerror
         _os.strerror = lambda code, _m=model['errno']: f'{_m[code]} on this host' if code in _m else f'Unknown error {code}'
         patched.append((_os, 'strerror', saved_strerror))
+        # ... and so does the interpreter's own mapping from an error number to a subclass of OSError (OSError(35, '') is a
+        # BlockingIOError where EAGAIN is 35): the package's modules see a host OSError built on the model
+        host_oserror = make_oserror(model['errno'])
+        for m in mods:
+            if m.__name__.startswith('pykdebugparser') and 'OSError' not in vars(m):
+                setattr(m, 'OSError', host_oserror)
+                injected.append(m)
         for m in mods:
             for attr, obj in list(vars(m).items()):
                 for key, o in orig.items():
@@ -78,6 +86,9 @@ def host(model):
                     setattr(m, attr, model['sol'])
         yield
     finally:
+        for m in injected:
+            if 'OSError' in vars(m):
+                delattr(m, 'OSError')
         for m, attr, obj in reversed(patched):
             setattr(m, attr, obj)
         errno.errorcode.clear()
@@ -87,6 +98,26 @@ def host(model):
                 delattr(errno, nm)
             else:
                 setattr(errno, nm, val)
+
+
+OSERROR_SUBCLASSES = {
+    'EAGAIN': BlockingIOError, 'EWOULDBLOCK': BlockingIOError, 'EALREADY': BlockingIOError, 'EINPROGRESS': BlockingIOError,
+    'ECHILD': ChildProcessError, 'EPIPE': BrokenPipeError, 'ESHUTDOWN': BrokenPipeError, 'ECONNABORTED': ConnectionAbortedError,
+    'ECONNREFUSED': ConnectionRefusedError, 'ECONNRESET': ConnectionResetError, 'EEXIST': FileExistsError, 'ENOENT': FileNotFoundError,
+    'EINTR': InterruptedError, 'EISDIR': IsADirectoryError, 'ENOTDIR': NotADirectoryError, 'EACCES': PermissionError,
+    'EPERM': PermissionError, 'ESRCH': ProcessLookupError, 'ETIMEDOUT': TimeoutError}
+
+
+def make_oserror(errno_table):
+    """OSError as a host with this errno numbering has it: OSError(code, msg) is an instance of the subclass CPython maps
+    the code's NAME to"""
+    class HostOSError(OSError):
+        def __new__(cls, *a, **kw):
+            if cls is HostOSError and len(a) >= 2 and isinstance(a[0], int):
+                sub = OSERROR_SUBCLASSES.get(errno_table.get(a[0]))
+                return sub.__new__(sub, *a, **kw) if sub else Exception.__new__(OSError, *a, **kw)
+            return super().__new__(cls, *a, **kw)
+    return HostOSError
 
 
 def darwin_model():
